@@ -217,6 +217,12 @@ def matrix_package(quick: bool):
     # record fields whose optionality is only visible through a named alias (of an optional, of a nullable union): omitted when null like any other
     Aliased = Rec("MxAliased", [("id", P("int32")), ("remark", N("MxRemark")), ("nu", N("MxNullU")), ("direct", Opt(P("string"))), ("viaChain", N("MxRemark2"))])
     protos.append(Proto("MxAliasedOptional", [("plain", N("MxAliased")), ("items", S(N("MxAliased"))), ("vec", V(N("MxAliased"))), ("step", N("MxRemark")), ("ustep", N("MxNullU"))]))
+    # flags whose symbols overlap or cover several bits that have no symbol of their own: every value of the base type, as stream items, in a record, as map values
+    FM = En("MxFlagsMulti", [("read", 1), ("write", 2), ("owner", 0x0C)], "uint8", True)
+    FO = En("MxFlagsOverlap", [("r", 1), ("w", 2), ("rw", 3), ("x", 4), ("all", 7)], "uint8", True)
+    FZ = En("MxFlagsZero", [("none", 0), ("a", 1), ("b", 0x30)], "uint8", True)
+    FlagRec = Rec("MxFlagRec", [("m", N("MxFlagsMulti")), ("o", Opt(N("MxFlagsOverlap"))), ("z", N("MxFlagsZero"))])
+    protos.append(Proto("MxFlagValues", [("multi", S(N("MxFlagsMulti"))), ("overlap", S(N("MxFlagsOverlap"))), ("zero", S(N("MxFlagsZero"))), ("recs", S(N("MxFlagRec"))), ("byName", M(P("string"), N("MxFlagsMulti")))]))
     # arrays of rank 2 and 3 of plain scalars (the element types a writer may copy in bulk), alone, in records and as stream items
     ArrRec = Rec("MxArrRec", [("img", A(P("float32"), 2)), ("mask", A(P("bool"), 2)), ("n", P("int32"))])
     protos.append(Proto("MxArrays", [("d2", A(P("float64"), ((None, 2), (None, 3)))), ("b2", A(P("bool"), 2)), ("i3", A(P("int16"), 3)), ("u2", A(P("uint8"), 2)), ("f2", A(P("float32"), 2)),
@@ -224,7 +230,7 @@ def matrix_package(quick: bool):
     # arrays without a declared rank: rank 0 (one element, shape []) is a legal value
     protos.append(Proto("MxDynamic", [("d", A(P("int32"), None)), ("ds", S(A(P("float64"), None))), ("dv", V(A(P("int32"), None))), ("du", U((("arr", A(P("int32"), None)), ("text", P("string"))), False, True))]))
     return Pkg("Matrix", [Rc, Rc2, E1, F1, Gen, AllOpt, Al("MxLabel", P("string")), Al("MxCount", P("uint16")), Al("MxRemark", Opt(P("string"))),
-                          Al("MxNullU", U(((None, P("int32")), (None, P("string"))), True)), Al("MxRemark2", N("MxRemark")), Aliased, ArrRec] + protos)
+                          Al("MxNullU", U(((None, P("int32")), (None, P("string"))), True)), Al("MxRemark2", N("MxRemark")), Aliased, ArrRec, FM, FO, FZ, FlagRec] + protos)
 
 
 def run_matrix(ctx, quick):
@@ -252,6 +258,10 @@ def run_matrix(ctx, quick):
                 empty = [None, None, None]
                 full = [(0, "x"), (0, k), (1, "s")]
                 vals = [empty, (0, empty) if k % 2 == 0 else None, [empty, full, empty][: 1 + k % 3], [empty, full][: 1 + k % 2], (0, empty) if k % 3 else (1, "str"), [["k1", empty], ["k2", full]]]
+            if proto.name == "MxFlagValues":
+                lo, hi = k * 43, min(256, k * 43 + 43)
+                vals = [list(range(lo, hi)), list(range(lo, hi)), list(range(lo, hi)), [[i, (None if i % 3 == 0 else (0, (i * 5) % 256)), (i * 11) % 256] for i in range(lo, hi)],
+                        [["k%d" % i, i] for i in (4, 5, 8, 10, 12, 13, 255)]]
             if proto.name == "MxAliasedOptional":
                 nul = [k, None, None, None, None]
                 full = [k, (0, "r%d" % k), (1, "u") if k % 2 else (0, -k), (0, "d"), (0, "chain")]
